@@ -56,3 +56,11 @@ Example C14_repeats_matter :
   bulk_delete key_sorter ex_store [[2]; [2]] ≠ Ok (ex_store, [Some [20; 21]; Some [20; 21]]) /\
   bulk_get key_sorter ex_store [[2]; [9]; [1; 2; 3]; [2]] = Ok [Some [20; 21]; None; Some [10]; Some [20; 21]].
 Proof. split; [|exact ex_bulk_get]. vm_compute. intros H. discriminate H. Qed.
+
+(** the *_string variants: [get_string k = lossy <$> get k] etc., where [Utf8.lossy] models
+    String::from_utf8_lossy (std).  The model function is compared with the std function on every byte
+    string of length <= 2, on all 3-byte (thorough: 4-byte) strings over one representative per
+    UTF-8 byte class and on seeded random strings by this check.  ASCII is copied unchanged: *)
+From Aby Require Import Utf8.
+Theorem C14_lossy_ascii_identity : forall bs, forallb (fun b => b <? 128) bs = true -> lossy bs = bs.
+Proof. exact lossy_ascii. Qed.
